@@ -45,11 +45,14 @@ class Num (α : Type) extends Add α, Sub α, Mul α, Div α, Neg α where
   /-- `usize as Float` -/
   ofUsize : Nat → α
 
+-- The operator instances of a `Num` must never shadow a type's own arithmetic (ℝ in the proofs).
+attribute [instance 10] Num.toAdd Num.toSub Num.toMul Num.toDiv Num.toNeg
+
 namespace Num
 variable {α : Type} [Num α]
 
-instance (n : Nat) : OfNat α n := ⟨Num.ofNat n⟩
-instance : OfScientific α := ⟨Num.ofSci⟩
+instance (priority := 10) instOfNat (n : Nat) : OfNat α n := ⟨Num.ofNat n⟩
+instance (priority := 10) instOfScientific : OfScientific α := ⟨Num.ofSci⟩
 
 @[inline] def gt (a b : α) : Bool := Num.lt b a
 @[inline] def ge (a b : α) : Bool := Num.le b a
